@@ -46,11 +46,17 @@ pub struct Unit {
     pub observe: Vec<usize>,
     /// per-relation column domain sizes for input facts (default: prog.n for every column)
     pub domains: std::collections::HashMap<usize, Vec<i32>>,
+    /// inputs are enumerated up to renaming of the elements (programs that mention no element constant)
+    pub sym: Option<Sym>,
 }
+/// input sets of at most `max_facts` facts, one representative per orbit of the permutations of the
+/// `n_elem` elements acting on the columns `elem_cols` of every input fact
+#[derive(Clone, Debug)]
+pub struct Sym { pub elem_cols: Vec<usize>, pub n_elem: i32, pub max_facts: usize }
 impl Unit {
     pub fn simple(p: Prog, tag: &str) -> Unit {
         let all: Vec<usize> = (0..p.rels.len()).filter(|i| p.rels[*i].ds.is_none()).collect();
-        Unit { variants: vec![Variant::plain(&p)], input_rels: all.clone(), observe: all, prog: p, tag: tag.into(), domains: Default::default() }
+        Unit { variants: vec![Variant::plain(&p)], input_rels: all.clone(), observe: all, prog: p, tag: tag.into(), domains: Default::default(), sym: None }
     }
 }
 
@@ -480,6 +486,11 @@ pub fn f_timeout(thorough: bool) -> Vec<Unit> {
     for (i, u) in f_scc(false).into_iter().enumerate() { if i % step == 0 || u.tag == "scc-multihead" { out.push(u); } }
     for u in f_lat(false) { if thorough || u.tag.ends_with("dualu32") || u.tag.ends_with("setu8") || u.tag.ends_with("constprop") { out.push(u); } }
     for (i, u) in f_agg(false).into_iter().enumerate() { if i % (if thorough { 4 } else { 12 }) == 0 { out.push(u); } }
+    // BYODS relations computed in one stratum and read in a later one / in the same one
+    for u in f_ds(false) {
+        if u.sym.is_some() || u.tag.contains("ternary") { continue; }
+        if thorough || u.tag.contains("-clocked-readers-in-later") || u.tag.contains("-two-strata-readers-in-recursive") { out.push(u); }
+    }
     for u in out.iter_mut() {
         u.variants.truncate(1);
         u.variants[0].attrs = vec!["#![generate_run_timeout]".into()];
@@ -496,9 +507,11 @@ fn never() -> BodyItem { BodyItem::Cond(Cond::Lt(Expr::Const(1), Expr::Const(0))
 /// arrives (the input relation `sched(i, [k,] a, b)` is literally the insertion history); one reader
 /// rule per access pattern, placed in a later stratum or inside the recursive stratum.
 pub fn f_ds(thorough: bool) -> Vec<Unit> {
-    let n = 3;
     let t_max = 2;
     let mut units = vec![];
+    // deep: 4 elements, all histories of <= 4 insertions up to renaming of the elements (programs without element constants)
+    for deep in [false, true] {
+    let n = if deep { 4 } else { 3 };
     for ds in [Ds::Eqrel, Ds::Trrel, Ds::TrrelUf] {
         let dsname = match ds { Ds::Eqrel => "eqrel", Ds::Trrel => "trrel", Ds::TrrelUf => "trrel_uf" };
         for ternary in [false, true] {
@@ -566,13 +579,15 @@ pub fn f_ds(thorough: bool) -> Vec<Unit> {
                         readers.push(("first-of-join".into(), body, (0..cols).map(|cidx| ev(10 + cidx as Var)).collect()));
                     }
                     // constants and a repeated variable
-                    {
+                    if !deep {
                         let mut a1: Vec<Arg> = (0..cols).map(|cidx| v(10 + cidx as Var)).collect(); a1[k] = c(0);
                         let mut h1: Vec<Expr> = (0..cols).map(|cidx| ev(10 + cidx as Var)).collect(); h1[k] = Expr::Const(0);
                         readers.push(("const-first".into(), vec![atom(R, a1)], h1));
                         let mut a2: Vec<Arg> = (0..cols).map(|cidx| v(10 + cidx as Var)).collect(); a2[k + 1] = c(1);
                         let mut h2: Vec<Expr> = (0..cols).map(|cidx| ev(10 + cidx as Var)).collect(); h2[k + 1] = Expr::Const(1);
                         readers.push(("const-second".into(), vec![atom(R, a2)], h2));
+                    }
+                    {
                         let mut a3: Vec<Arg> = (0..cols).map(|cidx| v(10 + cidx as Var)).collect(); a3[k + 1] = v(10 + k as Var);
                         let mut h3: Vec<Expr> = (0..cols).map(|cidx| ev(10 + cidx as Var)).collect(); h3[k + 1] = ev(10 + k as Var);
                         readers.push(("repeated-var".into(), vec![atom(R, a3)], h3));
@@ -586,7 +601,7 @@ pub fn f_ds(thorough: bool) -> Vec<Unit> {
                     }
                     // one program per reader for the ternary form (a missing index arm must not take the
                     // other access patterns down with it), one program with all readers for the binary form
-                    let groups: Vec<Vec<(String, Vec<BodyItem>, Vec<Expr>)>> = if ternary { readers.into_iter().map(|r| vec![r]).collect() } else { vec![readers] };
+                    let groups: Vec<Vec<(String, Vec<BodyItem>, Vec<Expr>)>> = if ternary && !deep { readers.into_iter().map(|r| vec![r]).collect() } else { vec![readers] };
                     for group in groups {
                         let mut rels2 = rels.clone();
                         let mut rules2 = rules.clone();
@@ -603,17 +618,19 @@ pub fn f_ds(thorough: bool) -> Vec<Unit> {
                         }
                         let p = Prog { rels: rels2, rules: rules2, macros: vec![], n };
                         let tag = format!("ds-{}-{}-{}-{}{}", dsname, if ternary { "ternary" } else { "binary" }, feeder, if inside { "readers-in-recursive-stratum" } else { "readers-in-later-stratum" },
-                            if ternary { format!("-{}", names[0]) } else { String::new() });
+                            if deep { "-deep4".to_string() } else if ternary { format!("-{}", names[0]) } else { String::new() });
                         let mut u = Unit::simple(p, &tag);
                         u.input_rels = vec![SCHED];
-                        let mut dom = vec![t_max + 1]; if ternary { dom.push(2); } dom.push(n); dom.push(n);
+                        let mut dom = vec![t_max + 1]; if ternary { dom.push(if deep { 1 } else { 2 }); } dom.push(n); dom.push(n);
                         u.domains.insert(SCHED, dom);
+                        if deep { u.sym = Some(Sym { elem_cols: vec![1 + k, 2 + k], n_elem: n, max_facts: 4 }); }
                         units.push(u);
                     }
                     let _ = &mut rels;
                 }
             }
         }
+    }
     }
     units
 }
@@ -711,7 +728,15 @@ pub fn f_sugar(thorough: bool) -> Vec<Unit> {
         let mut u = Unit::simple(core.clone(), tag);
         let mut vs = Variant::plain(&sugared); vs.label = "sugared".into();
         let mut ve = Variant::plain(&core); ve.label = "hand-expanded".into();
-        u.variants = vec![vs, ve];
+        u.variants = if core == sugared { vec![vs] } else { vec![vs, ve] };
+        if tag == "sugar-front-binder" || tag == "sugar-args" {
+            // every variable bound by an earlier item as fresh variable + equality test
+            let eqx = crate::expand::desugar_eq(&sugared);
+            if eqx != core {
+                let mut vq = Variant::plain(&eqx); vq.label = "equality-expanded".into();
+                u.variants.push(vq);
+            }
+        }
         units.push(u);
     };
     let mut salt = 0usize;
@@ -764,6 +789,19 @@ pub fn f_sugar(thorough: bool) -> Vec<Unit> {
             push(vec![rule(hd.clone(), bc)], "sugar-attached-cond", &mut units);
         }
     }
+    // an item that binds a variable in front of the clauses: the clause argument is then an equality test
+    // against the column although the two clauses look like a plain join
+    for (fi, front) in [BodyItem::Cond(Cond::Let(0, Expr::Const(1))), BodyItem::Gen(Gen::Two(0, Expr::Const(0), Expr::Const(0))), BodyItem::Gen(Gen::Range(0))].into_iter().enumerate() {
+        let mut bodies2 = vec![];
+        sugar_atoms(&base, &[a, b, pp], 2, if thorough { 1 } else { 0 }, &vec![0], 1, 0, &mut vec![front.clone()], &mut bodies2);
+        for (body, bound, _) in &bodies2 {
+            if body.len() < 2 { continue; }
+            salt += 1;
+            // quick tier: the three binders rotate through the bodies
+            if !thorough && salt % 3 != fi { continue; }
+            push(vec![rule(heads_for(&base, bound, false, salt), body.clone())], "sugar-front-binder", &mut units);
+        }
+    }
     // body-less rules are unconditional facts
     push(vec![rule(vec![head(q, vec![Expr::Const(1)])], vec![]), rule(vec![head(pp, vec![Expr::Const(0), Expr::Const(1)]), head(q, vec![Expr::Const(0)])], vec![]),
               rule(vec![head(pp, vec![ev(0), ev(0)])], vec![atom(q, vec![v(0)])])], "sugar-facts", &mut units);
@@ -801,10 +839,15 @@ pub fn f_macro(thorough: bool) -> Vec<Unit> {
         MacroDef { name: "h".into(), params: vec![MacParam::Ident, MacParam::Ident], body: vec![], heads: vec![Head { rel: pp, args: vec![HArg::E(ev(P0)), HArg::E(ev(P1))] }, Head { rel: q, args: vec![HArg::E(ev(P1))] }] },
         // 6: local bound by a let and a negation inside the macro
         MacroDef { name: "k".into(), params: vec![MacParam::Ident], body: vec![atom(b, vec![v(P0), v(l0)]), BodyItem::Cond(Cond::Let(l1, Expr::Succ(Box::new(ev(l0))))), BodyItem::Neg { rel: a, args: vec![Arg::Expr(ev(l1))] }], heads: vec![] },
+        // 7: disjunction whose disjuncts invoke another macro a different number of times, then one more invocation
+        MacroDef { name: "e".into(), params: vec![MacParam::Ident, MacParam::Ident], body: vec![BodyItem::Disj(vec![vec![call(8, vec![mi(P0), mi(l1)]), call(8, vec![mi(l1), mi(P1)])], vec![call(8, vec![mi(P0), mi(P1)])]]), call(8, vec![mi(P1), mi(l1)])], heads: vec![] },
+        // 8: the local is determined by the first parameter: two invocations sharing it would force their arguments equal
+        // (a condition must not be the last item: inside a disjunction `if e | ...` would parse `|` into the expression)
+        MacroDef { name: "g".into(), params: vec![MacParam::Ident, MacParam::Ident], body: vec![atom(b, vec![v(P0), v(P1)]), atom(a, vec![v(l0)]), BodyItem::Cond(Cond::Eq(ev(l0), ev(P0))), atom(a, vec![v(l0)])], heads: vec![] },
     ];
     let ctx = rule(vec![head(pp, vec![ev(0), ev(1)])], vec![atom(b, vec![v(0), v(1)])]);
     // call patterns (call-site variables 0,1,2,3)
-    let rules: Vec<(&str, Rule)> = vec![
+    let mut rules: Vec<(&str, Rule)> = vec![
         ("one-call", rule(vec![head(pp, vec![ev(0), ev(1)])], vec![call(0, vec![mi(0), mi(1)])])),
         ("same-macro-twice", rule(vec![head(pp, vec![ev(0), ev(2)])], vec![call(0, vec![mi(0), mi(1)]), call(0, vec![mi(1), mi(2)])])),
         ("same-macro-twice-same-args", rule(vec![head(q, vec![ev(0)])], vec![call(0, vec![mi(0), mi(1)]), call(0, vec![mi(0), mi(1)])])),
@@ -821,7 +864,16 @@ pub fn f_macro(thorough: bool) -> Vec<Unit> {
         ("head-macro", rule(vec![HeadItem::Call { mac: 5, args: vec![mi(1), mi(0)] }], vec![atom(b, vec![v(0), v(1)])])),
         ("head-and-body-macro", rule(vec![HeadItem::Call { mac: 5, args: vec![mi(0), mi(2)] }, head(q, vec![ev(1)])], vec![call(0, vec![mi(0), mi(1)]), call(1, vec![mi(1), MacArg::Expr(ev(2))])])),
         ("let-and-negation", rule(vec![head(q, vec![ev(0)])], vec![call(6, vec![mi(0)]), call(6, vec![mi(0)])])),
+        // invocations inside a disjunction, the disjuncts drawing different numbers of fresh names, and invocations around it
+        ("disj-of-calls-inside-macro", rule(vec![head(pp, vec![ev(0), ev(1)])], vec![call(7, vec![mi(0), mi(1)])])),
+        ("disj-of-calls-inside-macro-then-call", rule(vec![head(pp, vec![ev(0), ev(2)])], vec![call(7, vec![mi(0), mi(1)]), call(8, vec![mi(1), mi(2)])])),
     ];
+    for (mac, n1, n2, n3) in [(0usize, "disj-calls-then-call", "disj-calls-then-call-short-first", "call-then-disj-calls"), (8, "disj-calls-then-call-g", "disj-calls-then-call-short-first-g", "call-then-disj-calls-g")] {
+        let m = |x: Var, y: Var| call(mac, vec![mi(x), mi(y)]);
+        rules.push((n1, rule(vec![head(pp, vec![ev(0), ev(3)])], vec![BodyItem::Disj(vec![vec![m(0, 1), m(1, 2)], vec![m(0, 2)]]), m(2, 3)])));
+        rules.push((n2, rule(vec![head(pp, vec![ev(0), ev(3)])], vec![BodyItem::Disj(vec![vec![m(0, 2)], vec![m(0, 1), m(1, 2)]]), m(2, 3)])));
+        rules.push((n3, rule(vec![head(pp, vec![ev(0), ev(2)])], vec![m(0, 1), BodyItem::Disj(vec![vec![m(1, 3), m(3, 2)], vec![m(1, 2)]])])));
+    }
     // spellings: macro locals are spelled "z" and "w"; call-site variables get every clash pattern
     let local_names: Vec<(Var, &str)> = vec![(l0, "z"), (l1, "w")];
     let mut schemes: Vec<Vec<&str>> = vec![
